@@ -3,6 +3,7 @@ package verifh
 import (
 	"context"
 	"encoding/json"
+	"errors"
 	"fmt"
 	"strings"
 	"time"
@@ -39,6 +40,7 @@ type creq struct {
 	Got      string // payload returned to the caller ("" none)
 	GotErr   string // error text returned for this request
 	GotCode  int
+	GotData  string
 	RspID    string
 	Cancels  int // OnCancel invocations for this id
 	Answered bool
@@ -48,7 +50,9 @@ type cop struct {
 	Idx     int
 	Kind    opKind
 	Reqs    []*creq
-	CtxKind int // 0 background, 1 cancelled by the workload, 2 deadline
+	CtxKind int // 0 background, 1 cancelled at a quiescent point, 2 deadline, 3 cancelled by a racing task, 4 already cancelled when invoked
+	Cause   bool // created with WithCancelCause / WithTimeoutCause and a custom cause
+	CancelAfter int // kind 3: scheduling steps the cancelling task waits first
 	Gate    bool
 	Open    bool
 	Delay   int
@@ -75,6 +79,7 @@ type cbRec struct {
 	Tag     string
 	Steps   int
 	Hold    bool
+	WaitCtx bool // the handler returns only when its context has ended (the client stopped)
 	Enter   int
 	Exit    int
 	Holding bool
@@ -164,7 +169,9 @@ func newCliWorld(r *Run, cfg cliCfg) *cliWorld {
 			w.byTag[q.Tag] = q
 		}
 		if cfg.Faults {
-			op.CtxKind = g.Weighted("opctx", []int{5, 3, 2})
+			op.CtxKind = g.Weighted("opctx", []int{5, 3, 2, 2, 1})
+			op.Cause = g.Chance("ctxcause", 0.3)
+			op.CancelAfter = g.Int("cancelafter", 40)
 		}
 		op.Gate = g.Chance("opgate", 0.4)
 		op.Delay = g.Int("opdelay", 20)
@@ -230,7 +237,9 @@ func (w *cliWorld) onCallback(ctx context.Context, req *jrpc2.Request) (any, err
 	for i := 0; i < cb.Steps; i++ {
 		rt.Yield("cb:step")
 	}
-	if cb.Hold {
+	if cb.WaitCtx {
+		rt.Block("cb:ctx", func() bool { return ctx.Err() != nil })
+	} else if cb.Hold {
 		cb.Holding = true
 		rt.Block("cb:hold", func() bool { return cb.Release || w.releaseAll })
 		cb.Holding = false
@@ -256,13 +265,45 @@ func (w *cliWorld) opTask(op *cop) {
 
 func (w *cliWorld) runOp(op *cop) {
 	ctx := context.Background()
+	custom := errors.New("custom cause: the user pressed stop")
 	switch op.CtxKind {
-	case 1:
-		ctx, op.cancel = context.WithCancel(ctx)
+	case 1, 3, 4:
+		if op.Cause {
+			var cc context.CancelCauseFunc
+			ctx, cc = context.WithCancelCause(ctx)
+			op.cancel = func() { cc(custom) }
+		} else {
+			ctx, op.cancel = context.WithCancel(ctx)
+		}
 	case 2:
 		var c context.CancelFunc
-		ctx, c = context.WithTimeout(ctx, time.Minute)
+		if op.Cause {
+			ctx, c = context.WithTimeoutCause(ctx, time.Minute, custom)
+		} else {
+			ctx, c = context.WithTimeout(ctx, time.Minute)
+		}
 		defer c()
+	}
+	switch op.CtxKind {
+	case 4:
+		// the context is over before the operation starts
+		op.CancelSeq = w.seq()
+		op.cancel()
+		op.CancelEnd = w.seq()
+	case 3:
+		// cancelled by another goroutine at whatever moment the scheduler gives it
+		w.r.Sim.Spawn(fmt.Sprintf("x-cancel%d", op.Idx), func() {
+			for i := 0; i < op.CancelAfter; i++ {
+				rt.Yield("cancel:delay")
+			}
+			if op.Done {
+				return
+			}
+			op.CancelSeq = w.seq()
+			w.r.Ev("ctx.cancel", fmt.Sprint(op.Idx), 0, 0, "")
+			op.cancel()
+			op.CancelEnd = w.seq()
+		})
 	}
 	op.Invoke = w.seq()
 	w.r.Ev("op.invoke", fmt.Sprint(op.Kind, op.Idx), 0, 0, "")
@@ -271,14 +312,14 @@ func (w *cliWorld) runOp(op *cop) {
 		if rsp != nil {
 			q.RspID = rsp.ID()
 			if e := rsp.Error(); e != nil {
-				q.GotErr, q.GotCode, q.Got = e.Message, int(e.Code), e.Message
+				q.GotErr, q.GotCode, q.Got, q.GotData = e.Message, int(e.Code), e.Message, string(e.Data)
 			} else {
 				q.Got = rsp.ResultString()
 			}
 		} else if err != nil {
 			q.GotErr = err.Error()
 			if e, ok := err.(*jrpc2.Error); ok {
-				q.GotCode, q.Got = int(e.Code), e.Message
+				q.GotCode, q.Got, q.GotData = int(e.Code), e.Message, string(e.Data)
 			}
 		}
 	}
@@ -375,8 +416,20 @@ func (w *cliWorld) peerSaw(raw string) {
 			w.queueReply(q)
 		case 2:
 			w.queueReply(q)
+			if g.Chance("dupnow", 0.6) {
+				// the duplicates travel together: same array, or racing deliveries
+				w.queueReply(q)
+				if g.Chance("dupthird", 0.4) {
+					w.queueReply(q)
+				}
+				q.Opened = true
+			}
 		case 3:
 			w.queueDefective(q)
+			if g.Chance("validnow", 0.4) {
+				w.queueReply(q)
+				q.Opened = true
+			}
 		}
 		// interleave server-initiated traffic and replies for ids nobody uses
 		switch g.Weighted("extra", []int{12, 2, 2, 2, 3}) {
@@ -419,6 +472,7 @@ func (w *cliWorld) peerSaw(raw string) {
 			w.nrep++
 			tag := fmt.Sprintf("cb%d", w.nrep)
 			cb := &cbRec{Tag: tag, Steps: g.Int("cbsteps", 3), Hold: g.Chance("cbhold", 0.3), Enter: -1, Exit: -1}
+			cb.WaitCtx = w.cfg.Faults && g.Chance("cbwaitctx", 0.2)
 			w.cbs[tag] = cb
 			w.cbOrder = append(w.cbOrder, cb)
 			w.outbox = append(w.outbox, fmt.Sprintf(`{"jsonrpc":"2.0","id":"%s","method":"srvcall","params":{"t":"%s"}}`, tag, tag))
